@@ -127,7 +127,7 @@ theorem step_sched (c : Ctx) (g g' : G) (r : Rec) (h : RunAccept.step c g r = .o
     simp only [RunAccept.step] at h
     repeat' split at h
     all_goals (cases h <;> rfl)
-  | backendRaise k =>
+  | backendRaise k caught =>
     simp only [RunAccept.step] at h
     injection h with h; subst h; rfl
   | handlerExit =>
